@@ -316,7 +316,7 @@ fn main() {
     let mut w = CaseWriter::new(
         "From SwimV Require Import Model.Persist.\nOpen Scope N_scope.",
         "pcase",
-        &["p_oracle_bad"],
+        &["w_oracle_bad"],
         args.shards,
     );
     let mut kinds: BTreeMap<String, u64> = BTreeMap::new();
@@ -363,7 +363,29 @@ fn main() {
         if samples.len() < 3 && voted_then_event {
             samples.push(J::s(human.chars().take(700).collect::<String>()));
         }
-        w.push(format!("{{| pc_mirror := false; pc_cmds := []; pc_log := {}; pc_crashes := [] |}}", coq_list(entries)), human);
+        // what each scripted lane reported (events and sync answers), for the provenance of the store's content
+        let mut reported: Vec<String> = vec![];
+        let (mut cur_v, mut cur_t) = (0i64, 0i64);
+        for a in &acts {
+            match a {
+                Act::Event("v", n) => {
+                    cur_v = *n;
+                    reported.push(format!("CSet 0 {}", zi(*n)));
+                }
+                Act::Event("t", n) => {
+                    cur_t = *n;
+                    reported.push(format!("CSet 1 {}", zi(*n)));
+                }
+                Act::Event(_, n) => reported.push(format!("CMap 2 (MUpdate {} {})", zi(n.rem_euclid(3)), zi(*n))),
+                Act::Clear => reported.push("CMap 2 MClear".to_string()),
+                Act::SyncAnswer(lane, _) => reported.push(if *lane == "v" { format!("CSet 0 {}", zi(cur_v)) } else { format!("CSet 1 {}", zi(cur_t)) }),
+                _ => {}
+            }
+        }
+        if acts.iter().any(|a| matches!(a, Act::Event("t", _))) && log.iter().any(|e| matches!(e, LogEntry::Put(..))) {
+            *kinds.entry("transient_lane_event_and_a_value_stored".into()).or_default() += 1;
+        }
+        w.push(format!("{{| pc_mirror := false; pc_cmds := {}; pc_log := {}; pc_crashes := [] |}}", coq_list(reported), coq_list(entries)), human);
     };
 
     // corpus: an event that arrives after the vote to stop has become unanimous
@@ -413,7 +435,7 @@ fn main() {
     let meta = J::obj(vec![
         ("evaluations", J::I(w.len() as i128)),
         ("distinct_nontrivial", J::I(nontrivial as i128)),
-        ("rule", J::s("the runtime's real write_task (hook run_write_task) over three scripted lanes (persistent value, transient value, persistent map), a recording NodePersistence and 1-2 remotes whose frames are logged on the store's clock; virtual time; 3-14 actions out of: a lane event (40%), a map clear, a targeted sync answer, link, unlink, the inactivity timeout passing (15%), the other two voters voting (10%) / rescinding, the stop message; the task is told to stop 0-2 actions after the vote has become unanimous; the log must satisfy log_ok of Model/Persist.v (everything a remote read of a persistent lane had been handed to the store before); non-trivial = a lane event after the write task voted and the others voted too")),
+        ("rule", J::s("the runtime's real write_task (hook run_write_task) over three scripted lanes (persistent value, transient value, persistent map), a recording NodePersistence and 1-2 remotes whose frames are logged on the store's clock; virtual time; 3-14 actions out of: a lane event (40%), a map clear, a targeted sync answer, link, unlink, the inactivity timeout passing (15%), the other two voters voting (10%) / rescinding, the stop message; the task is told to stop 0-2 actions after the vote has become unanimous; the log must satisfy log_ok of Model/Persist.v (everything a remote read of a persistent lane had been handed to the store before) and provenance_ok (whatever reaches the store under an item's id was reported by that item; nothing is deleted); non-trivial = a lane event after the write task voted and the others voted too")),
         ("structures", J::counts(&kinds)),
         ("samples", J::A(samples)),
         ("direct_failures", J::A(failures.iter().take(40).map(|f| J::s(f.chars().take(500).collect::<String>())).collect())),
